@@ -501,7 +501,7 @@ class MailboxSet(MailboxSetInterface[MailboxData]):
         else:
             try:
                 maildir = self._layout.get_folder(name, self.delimiter)
-            except FileNotFoundError as exc:
+            except (FileNotFoundError, ValueError) as exc:
                 raise KeyError(name) from exc
         if name in self._cache:
             mbx = self._cache[name]
@@ -526,7 +526,7 @@ class MailboxSet(MailboxSetInterface[MailboxData]):
     async def delete_mailbox(self, name: str) -> None:
         try:
             self._layout.remove_folder(name, self.delimiter)
-        except FileNotFoundError as exc:
+        except (FileNotFoundError, ValueError) as exc:
             raise KeyError(name) from exc
         except OSError as exc:
             if exc.errno == errno.ENOTEMPTY:
